@@ -29,14 +29,14 @@ func init() {
 		Explanation: "Decides, for every schedule at once, the locking shape that rules out the two failure modes of a closed-channel condition variable, for every module type that owns a notify.Notify (connectedness tracker, lifecycle manager, discovery peer cache, and as cross-checks the network-update and net-manager siblings). " +
 			"(D1) the lock-order graph (acquisition-while-held edges, through callees, with the lock of each Notify resolved from its notify.New construction site) has no cycle and no re-acquisition through a lock of these types. " +
 			"(D2) every Broadcast is made with the condition's lock L write-held on every call path. " +
-			"(D3) every Wait (or call of an unexported boolean wrapper around it) is made with L held, sits in a loop that reaches the Wait again after a wake-up, inside that loop the fields the waiter tests are only read with L held (test and registration form one critical section), and no other lock that a broadcaster of the same condition must take first stays held across the sleep. " +
-			"(D4) Notify.Wait registers for the channel before it releases L, releases L before sleeping, re-acquires L on every path out of the select, returns false on the context arm and true on the signal arm; Broadcast closes the channel Wait sleeps on and forgets it. " +
+			"(D3) every Wait (or call of an unexported boolean wrapper around it) is made with L held, sits in a loop that reaches the Wait again after a wake-up, inside that loop the fields the waiter tests are only read with L held (test and registration form one critical section), every branch taken with L held on the way to the Wait tests only values of that state that were read with L held (no stale copy read before the lock or through a getter that releases it), and no other lock that a broadcaster of the same condition must take first stays held across the sleep. " +
+			"(D4) Notify.Wait registers for the channel before it releases L, releases L before sleeping, re-acquires L on every path out of the select, returns false on the context arm and true on the signal arm; Broadcast closes the channel Wait sleeps on and forgets it; every store to that channel field in the notify package is either a first registration (field nil on that path) or goes with a close of the channel read from the field (the channel is shared by all sleeping waiters: dropping it unclosed orphans them). " +
 			"(D5) after a cancelled Wait the caller reaches no further Wait and every return it can reach yields false. " +
-			"(D6) every write (store, map insert) to a field the waiters' predicates read is followed by a reachable Broadcast on that condition, or preceded by one in the same critical section of L; get-or-create inserts of fresh objects and removals are exempt (removals are only noted). " +
+			"(D6) every write (store, map insert) to a field the waiters' predicates read is followed by a Broadcast on that condition on every path from the write to a return of the function (through unexported helpers: of its callers; one Broadcast per element of a range loop counts; the branch on which the stored value equals the value read before is exempt), or preceded by one in the same critical section of L; get-or-create inserts of fresh objects and removals are exempt (removals are only noted). " +
 			"Not decided: that a waiter returns exactly the peers whose status changed (functional content of the diff), fairness/promptness in real time, data races that are not lost wake-ups, behaviour of code that reaches these objects through reflection or unsafe; lock identity is per class, not per instance.",
 		Trusted:     []string{"go/ssa (x/tools v0.29.0)", "sync.Mutex / sync.RWMutex / channel close semantics", "lock identity by owner type + field path; notify.New argument aliasing resolved at construction sites"},
 		Assumptions: []string{"a Notify is only built by notify.New and only stored in the struct field it is constructed for; locks are not passed around as values outside the construction sites"},
-		Floors:      map[string]int{"D1": 10, "D2": 5, "D3": 20, "D4": 7, "D5": 10, "D6": 5},
+		Floors:      map[string]int{"D1": 10, "D2": 5, "D3": 25, "D4": 9, "D5": 10, "D6": 5},
 		Run:         runC16,
 	})
 }
@@ -235,6 +235,8 @@ type c16An struct {
 	bcast      map[*ssa.Function]map[string]bool
 	pred       map[string]map[string]bool
 	waitFns    map[*ssa.Function]bool
+	mustMemo   map[string]bool
+	mustBusy   map[string]bool
 	ifaceC     map[string][]*ssa.Function
 	unresolved []string
 }
@@ -1242,7 +1244,8 @@ func c16BoolResultIdx(sig *types.Signature) []int {
 
 func runC16(c *Ctx) {
 	a := &c16An{c: c, w: c.W, conds: map[string]*c16Cond{}, parent: map[string]string{}, flows: map[*ssa.Function]*c16Flow{},
-		entry: map[*ssa.Function]lockSet{}, entryBusy: map[*ssa.Function]bool{}, ifaceC: map[string][]*ssa.Function{}}
+		entry: map[*ssa.Function]lockSet{}, entryBusy: map[*ssa.Function]bool{}, ifaceC: map[string][]*ssa.Function{},
+		mustMemo: map[string]bool{}, mustBusy: map[string]bool{}}
 	t0 := time.Now()
 	lap := func(what string) {
 		if debugOn() {
@@ -1611,6 +1614,12 @@ func (a *c16An) checkD3(waits, bcasts []c16Site) {
 		c.check(len(unl) == 0, "D3", cons+"+predicate-under-L", posOf(in),
 			"inside the re-check loop the tested state is only read with "+l+" held",
 			fmt.Sprintf("inside the re-check loop the state the waiter tests is read without %s held (%s): an update and its Broadcast can fall between that test and the registration in Wait, and the waiter sleeps on a state that already differs", l, strings.Join(unl, ", ")))
+		// the decision to sleep is taken on fresh state: every read of the tested state that
+		// flows into a branch taken with L held on the way to this Wait was itself made with L held
+		stale := a.staleDecisionSources(s, l)
+		c.check(len(stale) == 0, "D3", cons+"+decides-on-locked-read", posOf(in),
+			"every branch taken under "+l+" before this Wait tests state that was read with "+l+" held",
+			fmt.Sprintf("a branch taken with %s held on the way to this Wait tests a value of the waiters' state that was read without %s held (%s): the value can be stale, an update and its Broadcast made in between are not seen and the waiter sleeps on a state that already differs", l, l, strings.Join(stale, ", ")))
 		// nested monitor: no other lock held across the sleep that a broadcaster needs
 		may := a.mayAt(in)
 		var bad []string
@@ -1639,6 +1648,121 @@ func (a *c16An) checkD3(waits, bcasts []c16Site) {
 			"no lock a broadcaster needs stays held across the sleep",
 			fmt.Sprintf("the waiter sleeps in Wait still holding %s: that broadcaster blocks before it can broadcast and the waiter is never woken", strings.Join(bad, ", ")))
 	}
+}
+
+// staleDecisionSources: positions of reads of the condition's predicate state (field loads, or
+// calls of functions that read it) made without l held whose value flows into the condition
+// of a branch that is executed with l held and from which the Wait site can be reached.
+func (a *c16An) staleDecisionSources(s c16Site, l string) []string {
+	cd := a.conds[s.Cond]
+	wait := s.Call.(ssa.Instruction)
+	var out []string
+	reported := map[ssa.Instruction]bool{}
+	flag := func(src ssa.Instruction) {
+		if reported[src] {
+			return
+		}
+		reported[src] = true
+		if !c16Holds(a.mustAt(src), l, 'R') {
+			out = append(out, a.c.pos(posOf(src)))
+		}
+	}
+	seen := map[ssa.Value]bool{}
+	var visit func(v ssa.Value, depth int)
+	visit = func(v ssa.Value, depth int) {
+		if v == nil || seen[v] || depth > 24 {
+			return
+		}
+		seen[v] = true
+		// a reference (pointer, map, channel, function) identifies the shared object, it is not a
+		// copy of its state: what is read through it later is read at that later point
+		switch v.Type().Underlying().(type) {
+		case *types.Pointer, *types.Map, *types.Chan, *types.Signature:
+			return
+		}
+		switch x := v.(type) {
+		case *ssa.Phi:
+			for _, e := range x.Edges {
+				visit(e, depth+1)
+			}
+		case *ssa.BinOp:
+			visit(x.X, depth+1)
+			visit(x.Y, depth+1)
+		case *ssa.UnOp:
+			if x.Op != token.MUL {
+				visit(x.X, depth+1)
+				return
+			}
+			switch ad := x.X.(type) {
+			case *ssa.FieldAddr:
+				if cls := a.predRead(ad, cd); cls != "" && a.pred[cls][s.Cond] {
+					flag(x)
+				}
+			case *ssa.Alloc:
+				if ad.Referrers() != nil {
+					for _, r := range *ad.Referrers() {
+						if st, ok := r.(*ssa.Store); ok && st.Addr == ssa.Value(ad) {
+							visit(st.Val, depth+1)
+						}
+					}
+				}
+			case *ssa.IndexAddr:
+				visit(ad.X, depth+1)
+			}
+		case *ssa.Field:
+			if cls := a.predRead(x, cd); cls != "" && a.pred[cls][s.Cond] {
+				flag(x)
+			}
+			visit(x.X, depth+1)
+		case *ssa.Extract:
+			visit(x.Tuple, depth+1)
+		case *ssa.Call:
+			if f := staticCallee(x.Common()); f != nil && !a.waitFns[f] && a.readsPred(f, s.Cond, map[*ssa.Function]bool{}, 0) {
+				flag(x)
+			}
+			for _, arg := range x.Common().Args {
+				visit(arg, depth+1)
+			}
+		case *ssa.Lookup:
+			// the content of a map of the tested state is read here
+			if ld, ok := x.X.(*ssa.UnOp); ok && ld.Op == token.MUL {
+				if fa, ok := ld.X.(*ssa.FieldAddr); ok {
+					if cls := a.predRead(fa, cd); cls != "" && a.pred[cls][s.Cond] {
+						flag(x)
+					}
+				}
+			}
+			visit(x.Index, depth+1)
+		case *ssa.Index:
+			visit(x.X, depth+1)
+		case *ssa.Slice:
+			visit(x.X, depth+1)
+		case *ssa.Next:
+			visit(x.Iter, depth+1)
+		case *ssa.Range:
+			visit(x.X, depth+1)
+		case *ssa.Convert:
+			visit(x.X, depth+1)
+		case *ssa.ChangeType:
+			visit(x.X, depth+1)
+		case *ssa.MakeInterface:
+			visit(x.X, depth+1)
+		case *ssa.TypeAssert:
+			visit(x.X, depth+1)
+		}
+	}
+	for _, b := range s.Fn.Blocks {
+		if len(b.Instrs) == 0 {
+			continue
+		}
+		iff, ok := b.Instrs[len(b.Instrs)-1].(*ssa.If)
+		if !ok || !instrReaches(iff, wait) || !c16Holds(a.mustAt(iff), l, 'R') {
+			continue
+		}
+		visit(iff.Cond, 0)
+	}
+	sort.Strings(out)
+	return c16Uniq(out)
 }
 
 func c16Uniq(l []string) []string {
@@ -1872,13 +1996,131 @@ func (a *c16An) checkD4() {
 					continue
 				}
 				fa, ok := st.Addr.(*ssa.FieldAddr)
-				if ok && fa.Field == closedField && a.isNotify(fa.X.Type()) && instrDominates(closeCall.(ssa.Instruction), st) && st.Val != closeCall.Common().Args[0] {
+				if !ok || fa.Field != closedField || !a.isNotify(fa.X.Type()) || st.Val == closeCall.Common().Args[0] {
+					continue
+				}
+				closed, isIn := closeCall.Common().Args[0].(ssa.Instruction)
+				if instrDominates(closeCall.(ssa.Instruction), st) {
 					forgot = true
+				} else if isIn && instrDominates(closed, st) && instrDominates(st, closeCall.(ssa.Instruction)) {
+					forgot = true // old value taken, field replaced, then the old value is closed
 				}
 			}
 		}
 		c.check(forgot, "D4", bname+"+forgets-closed-channel", posOf(closeCall),
 			"the closed channel is replaced before Broadcast returns", "the closed channel stays registered: the next Broadcast closes it again (panic) and every later Wait returns at once")
+	}
+	// (vi) the registered channel is shared by all sleeping waiters: it may only be replaced
+	// when there is none (the field is nil) or together with a close of the old channel
+	if sigField >= 0 {
+		a.checkChanFieldWrites(sigField)
+	}
+}
+
+// checkChanFieldWrites: every store to the wait-channel field of a Notify in its package is
+// either the registration of a first channel (made on the nil side of a test of the field) or
+// goes with a close of the channel read from the field (close before the store, or the old
+// value read before the store and closed after it).
+func (a *c16An) checkChanFieldWrites(field int) {
+	c := a.c
+	isFieldLoad := func(v ssa.Value) *ssa.UnOp {
+		for {
+			if ct, ok := v.(*ssa.ChangeType); ok {
+				v = ct.X
+				continue
+			}
+			break
+		}
+		ld, ok := v.(*ssa.UnOp)
+		if !ok || ld.Op != token.MUL {
+			return nil
+		}
+		fa, ok := ld.X.(*ssa.FieldAddr)
+		if !ok || fa.Field != field || !a.isNotify(fa.X.Type()) {
+			return nil
+		}
+		return ld
+	}
+	n := 0
+	for _, fn := range a.w.ModFuncs {
+		if p := fnPkg(fn); p == nil || p.Path() != c16PkgNotify {
+			continue
+		}
+		seen := 0
+		for _, b := range fn.Blocks {
+			for _, in := range b.Instrs {
+				st, ok := in.(*ssa.Store)
+				if !ok {
+					continue
+				}
+				fa, ok := st.Addr.(*ssa.FieldAddr)
+				if !ok || fa.Field != field || !a.isNotify(fa.X.Type()) || c16FreshAlloc(fa.X) {
+					continue
+				}
+				n++
+				seen++
+				cons := fnName(fn) + "+channel-field-write"
+				if seen > 1 {
+					cons += fmt.Sprintf("#%d", seen)
+				}
+				c.analysed(fn)
+				okWrite, how := false, ""
+				// closed together with the replacement
+				for _, ci := range callsIn(fn, keyIs("builtin.close")) {
+					ld := isFieldLoad(ci.Common().Args[0])
+					if ld == nil {
+						continue
+					}
+					cin := ci.(ssa.Instruction)
+					if _, isDefer := cin.(*ssa.Defer); isDefer {
+						if instrDominates(ld, st) {
+							okWrite, how = true, "the old channel is closed by a deferred close"
+						}
+						continue
+					}
+					if instrDominates(cin, st) {
+						okWrite, how = true, "the old channel is closed before it is replaced"
+					} else if instrDominates(ld, st) && instrReaches(st, cin) {
+						okWrite, how = true, "the old channel is read before the store and closed after it"
+					}
+				}
+				// first registration: the field is nil
+				if !okWrite {
+					for _, b2 := range fn.Blocks {
+						iff, ok := b2.Instrs[len(b2.Instrs)-1].(*ssa.If)
+						if !ok {
+							continue
+						}
+						cmp, ok := iff.Cond.(*ssa.BinOp)
+						if !ok || (cmp.Op != token.EQL && cmp.Op != token.NEQ) {
+							continue
+						}
+						var other ssa.Value
+						if isFieldLoad(cmp.X) != nil {
+							other = cmp.Y
+						} else if isFieldLoad(cmp.Y) != nil {
+							other = cmp.X
+						}
+						if other == nil || !isNilConst(other) {
+							continue
+						}
+						nilEdge := edge{b2, b2.Succs[0]}
+						if cmp.Op == token.NEQ {
+							nilEdge = edge{b2, b2.Succs[1]}
+						}
+						if edgeDominates(nilEdge, st.Block()) {
+							okWrite, how = true, "no channel was registered (the field is nil on this path)"
+						}
+					}
+				}
+				c.check(okWrite, "D4", cons, posOf(st),
+					"write of the wait-channel field: "+how,
+					"the registered wait channel is replaced or dropped without being closed and without the field being nil: it is shared by every waiter asleep on this condition, the others stay registered on a channel no Broadcast will ever close")
+			}
+		}
+	}
+	if n == 0 {
+		c.undecided("D4", "channel-field-write", token.NoPos, "no store to the wait-channel field found in package notify")
 	}
 }
 
@@ -2192,6 +2434,238 @@ func (a *c16An) announcedAfter(in ssa.Instruction, cond string, depth int) bool 
 	return true
 }
 
+// mustBroadcastAt: executing instruction x certainly makes a Broadcast on cond (a direct call
+// or defer of Broadcast, or a call all of whose callees broadcast on every path to their return).
+func (a *c16An) mustBroadcastAt(x ssa.Instruction, cond string, depth int) bool {
+	ci, ok := x.(ssa.CallInstruction)
+	if !ok {
+		return false
+	}
+	if _, isGo := x.(*ssa.Go); isGo {
+		return false
+	}
+	if staticCallee(ci.Common()) == a.fnBcast {
+		return len(ci.Common().Args) > 0 && c16Class(ci.Common().Args[0]) == cond
+	}
+	if depth > 3 {
+		return false
+	}
+	callees := a.callees(ci)
+	if len(callees) == 0 {
+		return false
+	}
+	for _, f := range callees {
+		if !a.bcast[f][cond] {
+			return false
+		}
+		key := f.String() + "|" + cond
+		if a.mustBusy[key] {
+			return false
+		}
+		v, done := a.mustMemo[key]
+		if !done {
+			a.mustBusy[key] = true
+			skip := true
+			if len(f.Blocks) > 0 && len(f.Blocks[0].Instrs) > 0 {
+				skip, _ = a.skipsFrom(f.Blocks[0], 0, cond, nil, depth+1)
+			}
+			delete(a.mustBusy, key)
+			v = !skip
+			a.mustMemo[key] = v
+		}
+		if !v {
+			return false
+		}
+	}
+	return true
+}
+
+// skipsFrom: there is a path from instruction idx of block b to a return on which no Broadcast
+// on cond is certainly made. The exit edge of a range loop whose body broadcasts on every
+// iteration is not followed (one Broadcast per element is the announcement); edges in blocked
+// are not followed either.
+func (a *c16An) skipsFrom(b *ssa.BasicBlock, idx int, cond string, blocked map[edge]bool, depth int) (bool, string) {
+	type pos struct {
+		b   *ssa.BasicBlock
+		idx int
+	}
+	seen := map[*ssa.BasicBlock]bool{}
+	stack := []pos{{b, idx}}
+	for len(stack) > 0 {
+		p := stack[len(stack)-1]
+		stack = stack[:len(stack)-1]
+		stopped := false
+		for i := p.idx; i < len(p.b.Instrs); i++ {
+			x := p.b.Instrs[i]
+			if a.mustBroadcastAt(x, cond, depth) {
+				stopped = true
+				break
+			}
+			if r, ok := x.(*ssa.Return); ok {
+				return true, "return at " + a.c.pos(posOf(r))
+			}
+			if _, ok := x.(*ssa.Panic); ok {
+				stopped = true
+				break
+			}
+		}
+		if stopped {
+			continue
+		}
+		for _, s := range p.b.Succs {
+			e := edge{p.b, s}
+			if blocked[e] || seen[s] {
+				continue
+			}
+			if a.rangeExitCovered(e, cond, depth) {
+				continue
+			}
+			seen[s] = true
+			stack = append(stack, pos{s, 0})
+		}
+	}
+	return false, ""
+}
+
+// rangeExitCovered: e leaves the header of a range loop (iterator or index form) whose body
+// cannot come back to the header without making a Broadcast on cond.
+func (a *c16An) rangeExitCovered(e edge, cond string, depth int) bool {
+	h := e.From
+	if len(h.Succs) != 2 || e.To != h.Succs[1] || len(h.Instrs) == 0 {
+		return false
+	}
+	iff, ok := h.Instrs[len(h.Instrs)-1].(*ssa.If)
+	if !ok {
+		return false
+	}
+	isRange := h.Comment == "rangeindex.loop"
+	if ex, ok := iff.Cond.(*ssa.Extract); ok && ex.Index == 0 {
+		if _, isNext := ex.Tuple.(*ssa.Next); isNext {
+			isRange = true
+		}
+	}
+	if !isRange {
+		return false
+	}
+	// body: from Succs[0], can the header (or a return) be reached without a Broadcast ?
+	seen := map[*ssa.BasicBlock]bool{}
+	stack := []*ssa.BasicBlock{h.Succs[0]}
+	for len(stack) > 0 {
+		b := stack[len(stack)-1]
+		stack = stack[:len(stack)-1]
+		if seen[b] {
+			continue
+		}
+		seen[b] = true
+		if b == h {
+			return false
+		}
+		stopped := false
+		for _, x := range b.Instrs {
+			if a.mustBroadcastAt(x, cond, depth) {
+				stopped = true
+				break
+			}
+			if _, ok := x.(*ssa.Return); ok {
+				return false
+			}
+		}
+		if !stopped {
+			stack = append(stack, b.Succs...)
+		}
+	}
+	return true
+}
+
+// skipsBroadcast: after instruction in, a return of its function (and, for an unexported
+// helper, of its callers) can be reached without a Broadcast on cond.
+func (a *c16An) skipsBroadcast(in ssa.Instruction, cond string, blocked map[edge]bool, depth int) (bool, string) {
+	b := in.Block()
+	idx := 0
+	for i, x := range b.Instrs {
+		if x == in {
+			idx = i + 1
+		}
+	}
+	skip, via := a.skipsFrom(b, idx, cond, blocked, 0)
+	if !skip {
+		return false, ""
+	}
+	fn := in.Parent()
+	if depth >= 3 || c16IsRoot(a.w, fn) {
+		return true, via
+	}
+	callers := a.w.callGraph().callers[fn]
+	if len(callers) == 0 {
+		return true, via
+	}
+	for _, cs := range callers {
+		call, isCall := cs.Instr.(*ssa.Call)
+		if !isCall {
+			return true, via
+		}
+		if s2, v2 := a.skipsBroadcast(call, cond, nil, depth+1); s2 {
+			return true, via + ", then " + v2 + " in " + fnName(cs.Caller)
+		}
+	}
+	return false, ""
+}
+
+// c16SameValueEdges: for a store of value v to a field, the branch edges taken when v equals
+// the value the field held before (a comparison of v with a load of the same location that
+// dominates the store): on them nothing changed, no announcement is due.
+func c16SameValueEdges(in ssa.Instruction) map[edge]bool {
+	st, ok := in.(*ssa.Store)
+	if !ok {
+		return nil
+	}
+	cls, _, base := c16DataClass(st.Addr)
+	if cls == "" {
+		return nil
+	}
+	out := map[edge]bool{}
+	isOldLoad := func(v ssa.Value) bool {
+		ld, ok := v.(*ssa.UnOp)
+		if !ok || ld.Op != token.MUL {
+			return false
+		}
+		c2, _, b2 := c16DataClass(ld.X)
+		return c2 == cls && b2 == base && instrDominates(ld, st)
+	}
+	for _, b := range in.Parent().Blocks {
+		if len(b.Instrs) == 0 {
+			continue
+		}
+		iff, ok := b.Instrs[len(b.Instrs)-1].(*ssa.If)
+		if !ok {
+			continue
+		}
+		cond := iff.Cond
+		neg := false
+		for {
+			u, ok := cond.(*ssa.UnOp)
+			if !ok || u.Op != token.NOT {
+				break
+			}
+			cond, neg = u.X, !neg
+		}
+		cmp, ok := cond.(*ssa.BinOp)
+		if !ok || (cmp.Op != token.EQL && cmp.Op != token.NEQ) {
+			continue
+		}
+		if !((cmp.X == st.Val && isOldLoad(cmp.Y)) || (cmp.Y == st.Val && isOldLoad(cmp.X))) {
+			continue
+		}
+		eqOnTrue := (cmp.Op == token.EQL) != neg
+		if eqOnTrue {
+			out[edge{b, b.Succs[0]}] = true
+		} else {
+			out[edge{b, b.Succs[1]}] = true
+		}
+	}
+	return out
+}
+
 // announcedBefore: a Broadcast on cond precedes in inside one uninterrupted critical section of
 // the condition's lock (both under L, no release of L in between).
 func (a *c16An) announcedBefore(in ssa.Instruction, cond string) bool {
@@ -2300,10 +2774,18 @@ func (a *c16An) checkD6(waits []c16Site) {
 			if n := seenCons[cons]; n > 1 {
 				cons += fmt.Sprintf("#%d", n)
 			}
-			okA := a.announcedAfter(wr.In, cond, 0) || a.announcedBefore(wr.In, cond)
-			c.check(okA, "D6", cons, posOf(wr.In),
-				"the write is announced: a Broadcast on "+cond+" can follow it (or precedes it in the same critical section)",
-				fmt.Sprintf("%s changes %s, which the waiters of %s test, and no Broadcast on that condition follows: a waiter already asleep is not woken although the state differs from what it saw", fnName(wr.Fn), wr.Class, cond))
+			switch {
+			case a.announcedBefore(wr.In, cond):
+				c.ok("D6", cons, posOf(wr.In), "the write is announced: a Broadcast on %s precedes it in the same critical section", cond)
+			case !a.announcedAfter(wr.In, cond, 0):
+				c.fail("D6", cons, posOf(wr.In), "%s changes %s, which the waiters of %s test, and no Broadcast on that condition follows: a waiter already asleep is not woken although the state differs from what it saw", fnName(wr.Fn), wr.Class, cond)
+			default:
+				if skip, via := a.skipsBroadcast(wr.In, cond, c16SameValueEdges(wr.In), 0); skip {
+					c.fail("D6", cons, posOf(wr.In), "%s changes %s, which the waiters of %s test, but the Broadcast that follows is conditional: a path from the write reaches a return without any Broadcast on that condition (%s); on that path a waiter already asleep is not woken although the state differs from what it saw", fnName(wr.Fn), wr.Class, cond, via)
+				} else {
+					c.ok("D6", cons, posOf(wr.In), "the write is announced: every path from it to a return makes a Broadcast on %s (one per element for a range loop; the branch on which the stored value equals the old one is exempt)", cond)
+				}
+			}
 		}
 	}
 }
